@@ -116,4 +116,17 @@ theorem quiescent_of_settled (s : S)
   | tail pc => cases pc <;> simp [step, stepTail, c1, c2, c3, c4]
   | closer pc => cases pc <;> simp [step, stepCloser, c5, c6, c7, c8]
 
+/-- the state a schedule leads to (for concrete witnesses and non-vacuity examples) -/
+def final (n : Nat) (acts : List Act) : S := (run (init n) acts).getD (init n)
+
+theorem reachable_final (n : Nat) (acts : List Act) (h : (run (init n) acts).isSome = true) :
+    Reachable n (final n acts) := by
+  refine ⟨acts, ?_⟩
+  simp only [final]
+  cases hr : run (init n) acts with
+  | none => rw [hr] at h; cases h
+  | some s => rfl
+
+instance (s : S) : Decidable (InContract s) := by unfold InContract; infer_instance
+
 end Netpoll.Shard
